@@ -21,7 +21,9 @@ def ref_tasks(prop, tier, seed, kf):
                                    cr.parse_reference_path_contract(),
                                    __import__("contracts.add_parameters", fromlist=["x"]).add_parameters_contract(),
                                    __import__("contracts.responses_c", fromlist=["x"]).response_contract(),
-                                   cbr.resolve_contract()], prop, tier, seed)
+                                   cbr.resolve_contract()]
+                           + ([__import__("contracts.responses_b", fromlist=["x"]).add_responses_contract()] if prop == "C20" else []),
+                           prop, tier, seed)
         return r
     tasks.append(rest)
     return tasks
